@@ -364,6 +364,10 @@ class FunctionCheck:
         if len(rc) != len(rs):
             return {"clause": "number of outputs", "code": len(rc), "spec": len(rs)}
         for name, a, b in zip(self.outputs, rc, rs):
+            if isinstance(a, (str, bytes, bool, type(None))) or isinstance(b, (str, bytes, bool, type(None))):
+                if a != b:
+                    return {"clause": "post.%s" % name, "code": repr(a), "spec": repr(b)}
+                continue
             if not close(a, b, self.rtol):
                 return {"clause": "post.%s" % name, "code": np.asarray(a, dtype=float).tolist() if np.size(a) <= 8 else str(a)[:200],
                         "spec": np.asarray(b, dtype=float).tolist() if np.size(b) <= 8 else str(b)[:200]}
